@@ -58,20 +58,20 @@ type Harness func(s *Sim, p Params) RunInfo
 
 // Result is one line of worker output.
 type Result struct {
-	Seed      uint64         `json:"seed"`
-	Outcome   string         `json:"outcome"` // ok | violation | inconclusive
-	Key       string         `json:"key,omitempty"`
-	Detail    string         `json:"detail,omitempty"`
-	Steps     int            `json:"steps"`
-	NChoices  int            `json:"nchoices"`
-	LogHash   string         `json:"log_hash"`
-	WallUs    int64          `json:"wall_us"`
-	Faults    map[string]int `json:"faults,omitempty"`
-	Probes    map[string]int `json:"probes,omitempty"`
-	Info      RunInfo        `json:"info"`
-	Choices   []int          `json:"choices,omitempty"`
-	Trace     []string       `json:"trace,omitempty"`
-	Known     map[string]int `json:"known,omitempty"`
+	Seed     uint64         `json:"seed"`
+	Outcome  string         `json:"outcome"` // ok | violation | inconclusive
+	Key      string         `json:"key,omitempty"`
+	Detail   string         `json:"detail,omitempty"`
+	Steps    int            `json:"steps"`
+	NChoices int            `json:"nchoices"`
+	LogHash  string         `json:"log_hash"`
+	WallUs   int64          `json:"wall_us"`
+	Faults   map[string]int `json:"faults,omitempty"`
+	Probes   map[string]int `json:"probes,omitempty"`
+	Info     RunInfo        `json:"info"`
+	Choices  []int          `json:"choices,omitempty"`
+	Trace    []string       `json:"trace,omitempty"`
+	Known    map[string]int `json:"known,omitempty"`
 }
 
 // ReplayFile is the on-disk format of a replay (also written by the runner).
@@ -157,31 +157,39 @@ func WorkerMain(t *testing.T, harnesses map[string]Harness) {
 			fmt.Fprintf(os.Stdout, "\nVSIM X %d hard wall-clock limit exceeded\n", seed)
 			os.Exit(4)
 		})
+		build := func(info RunInfo) Result {
+			if s.Expired() {
+				info.Inconclusive = true
+			}
+			r := Result{
+				Seed: seed, Outcome: "ok", Steps: s.Steps, NChoices: len(s.Choices), LogHash: s.LogHash(),
+				WallUs: time.Since(t0).Microseconds(), Faults: s.Faults, Probes: s.Probes, Info: info,
+			}
+			r.Known = s.KnownHit
+			if v := s.Violation(); v != nil {
+				r.Outcome = "violation"
+				r.Key, r.Detail = v.Key, v.Detail
+				r.Choices = append([]int(nil), s.Choices...)
+				r.Trace = s.Trace()
+			} else if info.Inconclusive {
+				r.Outcome = "inconclusive"
+			}
+			if wantChoices && r.Choices == nil {
+				r.Choices = append([]int(nil), s.Choices...)
+			}
+			if traceAll {
+				r.Trace = s.Trace()
+			}
+			return r
+		}
+		s.SetCheckpoint(func(info RunInfo) {
+			// WallUs is computed with the real clock only outside a bubble; inside it is fake, harmless
+			emit("P", build(info))
+		})
 		info := h(s, p)
 		softT.Stop()
 		hardT.Stop()
-		if s.Expired() {
-			info.Inconclusive = true
-		}
-		r := Result{
-			Seed: seed, Outcome: "ok", Steps: s.Steps, NChoices: len(s.Choices), LogHash: s.LogHash(),
-			WallUs: time.Since(t0).Microseconds(), Faults: s.Faults, Probes: s.Probes, Info: info,
-		}
-		r.Known = s.KnownHit
-		if v := s.Violation(); v != nil {
-			r.Outcome = "violation"
-			r.Key, r.Detail = v.Key, v.Detail
-			r.Choices = s.Choices
-			r.Trace = s.Trace()
-		} else if info.Inconclusive {
-			r.Outcome = "inconclusive"
-		}
-		if wantChoices && r.Choices == nil {
-			r.Choices = s.Choices
-		}
-		if traceAll {
-			r.Trace = s.Trace()
-		}
+		r := build(info)
 		return r
 	}
 
